@@ -70,8 +70,257 @@ Proof.
   pose proof (sys_et _ _ _ _ _ Es) as H. destruct k; inversion E; subst; exact H.
 Qed.
 
+Lemma st_desync_et : forall what w, l_et (st (desync what w)) = l_et (st w).
+Proof. intros. rewrite st_desync. reflexivity. Qed.
+
+Lemma efd_write_et : forall fuel w r w', efd_write fuel w = (r, w') -> l_et (st w') = l_et (st w).
+Proof.
+  induction fuel as [|f IH]; intros w r w' E; cbn [efd_write] in E.
+  - inversion E; subst. apply st_desync_et.
+  - destruct (sys "write" _ w) as [k w1] eqn:Es. pose proof (sys_et _ _ _ _ _ Es) as H1.
+    destruct k as [? ?|e|]; try (inversion E; subst; exact H1).
+    destruct (is_eagain e); [|inversion E; subst; exact H1].
+    destruct (sys "read" _ w1) as [k2 w2] eqn:Es2. rewrite (IH _ _ _ E), (sys_et _ _ _ _ _ Es2). exact H1.
+Qed.
+
+Lemma trigger_et : forall b t w r w', trigger b t w = (r, w') -> l_et (st w') = l_et (st w).
+Proof.
+  intros b t w r w' E. unfold trigger in E.
+  assert (He : l_et (enqueue (st w) b t) = l_et (st w)) by (unfold enqueue; destruct (_ && _); reflexivity).
+  destruct (l_flag _); [inversion E; subst; exact He|].
+  rewrite (efd_write_et _ _ _ _ E). exact He.
+Qed.
+
+(* ... nor do the mutually recursive procedures change it *)
+Record EF (f : nat) : Prop := mkEF {
+  ef_close : forall cid e w r w', el_close f cid e w = (r, w') -> l_et (st w') = l_et (st w);
+  ef_drain : forall cid w, l_et (st (close_drain f cid w)) = l_et (st w);
+  ef_write : forall cid d w r w', conn_write f cid d w = (r, w') -> l_et (st w') = l_et (st w);
+  ef_wloop : forall cid d n w r w', conn_write_loop f cid d n w = (r, w') -> l_et (st w') = l_et (st w);
+  ef_wvloop : forall cid sg n w r w', conn_writev_loop f cid sg n w = (r, w') -> l_et (st w') = l_et (st w);
+  ef_writev : forall cid sg w r w', conn_writev f cid sg w = (r, w') -> l_et (st w') = l_et (st w);
+  ef_elwrite : forall cid sent w r w', el_write f cid sent w = (r, w') -> l_et (st w') = l_et (st w);
+  ef_handler : forall cid w r w', handler f cid w = (r, w') -> l_et (st w') = l_et (st w);
+  ef_hcall : forall cid call args w, l_et (st (hcall f cid call args w)) = l_et (st w)
+}.
+
+Ltac et_step :=
+  repeat match goal with
+  | |- context [st (emit _ _)] => rewrite st_emit
+  | |- context [st (ghost _ _ _ _)] => rewrite st_ghost
+  | |- context [st (desync _ _)] => rewrite st_desync
+  | H : sys_wr _ _ _ _ _ = (_, ?w1) |- context [l_et (st ?w1)] => rewrite (sys_wr_et _ _ _ _ _ _ _ H)
+  | H : sys _ _ _ = (_, ?w1) |- context [l_et (st ?w1)] => rewrite (sys_et _ _ _ _ _ H)
+  | H : epctl _ _ _ _ _ = (_, ?w1) |- context [l_et (st ?w1)] => rewrite (epctl_et _ _ _ _ _ _ _ H)
+  | H : trigger _ _ _ = (_, ?w1) |- context [l_et (st ?w1)] => rewrite (trigger_et _ _ _ _ _ H)
+  | H : pull _ = (_, ?w1) |- context [l_et (st ?w1)] => rewrite (pull_gen_et _ _ _ _ H)
+  | |- context [l_et (st (wsetc _ _ _))] => change (l_et (st (wsetc ?w ?c ?x))) with (l_et (st w))
+  | |- context [l_et (st (with_st ?w (set_reg _ _)))] => change (l_et (st (with_st w (set_reg ?s ?r)))) with (l_et s)
+  end.
+
+Ltac break_match :=
+  match goal with
+  | |- context [match ?x with _ => _ end] => destruct x eqn:?
+  end.
+
+Ltac et_ih M :=
+  repeat match goal with
+  | H : el_close _ _ _ _ = (_, ?w1) |- context [l_et (st ?w1)] => rewrite (ef_close _ M _ _ _ _ _ H)
+  | H : conn_write _ _ _ _ = (_, ?w1) |- context [l_et (st ?w1)] => rewrite (ef_write _ M _ _ _ _ _ H)
+  | H : conn_write_loop _ _ _ _ _ = (_, ?w1) |- context [l_et (st ?w1)] => rewrite (ef_wloop _ M _ _ _ _ _ _ H)
+  | H : conn_writev_loop _ _ _ _ _ = (_, ?w1) |- context [l_et (st ?w1)] => rewrite (ef_wvloop _ M _ _ _ _ _ _ H)
+  | H : conn_writev _ _ _ _ = (_, ?w1) |- context [l_et (st ?w1)] => rewrite (ef_writev _ M _ _ _ _ _ H)
+  | H : el_write _ _ _ _ = (_, ?w1) |- context [l_et (st ?w1)] => rewrite (ef_elwrite _ M _ _ _ _ _ H)
+  | H : handler _ _ _ = (_, ?w1) |- context [l_et (st ?w1)] => rewrite (ef_handler _ M _ _ _ _ H)
+  | |- context [l_et (st (close_drain _ _ _))] => rewrite (ef_drain _ M)
+  | |- context [l_et (st (hcall _ _ _ _ _))] => rewrite (ef_hcall _ M)
+  | _ => progress et_step
+  end.
+
+Ltac break_snd :=
+  match goal with
+  | |- context [snd ?x] => lazymatch x with (_, _) => fail | _ => destruct x eqn:? end
+  end.
+Ltac et_crush M := repeat (first [break_match | break_snd | progress cbn [snd]]); et_ih M; repeat (break_match; et_ih M); try reflexivity; try assumption; try congruence.
+
+Lemma EF_all : forall f, EF f.
+Proof.
+  induction f as [|f M].
+  - constructor; intros; cbn in *;
+      try match goal with E : (_, _) = (_, _) |- _ => inversion E; subst end; try reflexivity; apply st_desync_et.
+  - constructor.
+    + intros cid e w r w' E. replace w' with (snd (el_close (S f) cid e w)) by (rewrite E; reflexivity).
+      clear E. cbn [el_close]. et_crush M.
+    + intros cid w. cbn [close_drain]. et_crush M.
+    + intros cid d w r w' E. replace w' with (snd (conn_write (S f) cid d w)) by (rewrite E; reflexivity).
+      clear E. cbn [conn_write]. et_crush M.
+    + intros cid d n w r w' E. replace w' with (snd (conn_write_loop (S f) cid d n w)) by (rewrite E; reflexivity).
+      clear E. cbn [conn_write_loop]. et_crush M.
+    + intros cid sg n w r w' E. replace w' with (snd (conn_writev_loop (S f) cid sg n w)) by (rewrite E; reflexivity).
+      clear E. cbn [conn_writev_loop]. et_crush M.
+    + intros cid sg w r w' E. replace w' with (snd (conn_writev (S f) cid sg w)) by (rewrite E; reflexivity).
+      clear E. cbn [conn_writev]. et_crush M.
+    + intros cid sent w r w' E. replace w' with (snd (el_write (S f) cid sent w)) by (rewrite E; reflexivity).
+      clear E. cbn [el_write]. et_crush M.
+    + intros cid w r w' E. replace w' with (snd (handler (S f) cid w)) by (rewrite E; reflexivity).
+      clear E. rewrite handler_eq. et_crush M.
+    + intros cid call args w. cbn [hcall]. et_crush M.
+Qed.
+
+(* ... nor does the size of the read buffer *)
+Lemma apply_async_bc : forall s l s', apply_async s l = Some s' -> l_bufcap s' = l_bufcap s.
+Proof.
+  intros s l s' E. apply apply_async_cases in E. destruct E as [(b & t & _ & ->)|(b & c & cb & _ & ->)];
+    cbn [set_flag set_queues l_bufcap]; unfold enqueue; destruct (_ && _); reflexivity.
+Qed.
+
+Lemma pull_from_bc : forall picks i s lg s' lg' o r,
+  pull_from picks s lg i = (s', lg', o, r) -> l_bufcap s' = l_bufcap s.
+Proof.
+  intros picks. induction i as [|l i IH]; intros s lg s' lg' o r E; cbn [pull_from] in E.
+  - inversion E; reflexivity.
+  - destruct (apply_async s l) as [s1|] eqn:Ea.
+    + rewrite (IH _ _ _ _ _ _ E). eapply apply_async_bc; eauto.
+    + destruct (negb picks && is_pick l); [eauto|inversion E; reflexivity].
+Qed.
+
+Lemma pull_gen_bc : forall picks w o w', pull_gen picks w = (o, w') -> l_bufcap (st w') = l_bufcap (st w).
+Proof.
+  intros picks w o w' E. unfold pull_gen in E. destruct (halt w); [inversion E; reflexivity|].
+  destruct (pull_from picks (st w) (log w) (inp w)) as [[[s lg] o'] r] eqn:Ep.
+  pose proof (pull_from_bc _ _ _ _ _ _ _ _ Ep) as H. destruct o'; inversion E; subst; exact H.
+Qed.
+
+Lemma sys_wr_bc : forall cid fd src exact w k w', sys_wr cid fd src exact w = (k, w') -> l_bufcap (st w') = l_bufcap (st w).
+Proof.
+  intros cid fd src exact w k w' E. rewrite sys_wr_eq in E.
+  destruct (pull _) as [[[nm0 args]|] w1] eqn:Ep; pose proof (pull_gen_bc _ _ _ _ Ep) as H1; rewrite st_emit in H1.
+  2:{ inversion E; subst; exact H1. }
+  assert (Hd : forall what, l_bufcap (st (desync what w1)) = l_bufcap (st w)) by (intros; rewrite st_desync; exact H1).
+  destruct (String.eqb nm0 "r"); [|inversion E; subst; apply Hd].
+  destruct args as [|[?|?|nm] [|[off|?|?] [|[n|?|?] rest]]]; try (inversion E; subst; apply Hd).
+  destruct (negb (sym_eqb nm "wr")); [inversion E; subst; apply Hd|].
+  destruct (_ || _ || _); [inversion E; subst; apply Hd|].
+  cbv zeta in E. destruct (n <? 0).
+  - destruct rest as [|[?|?|e] ?]; inversion E; subst; rewrite ?st_ghost, ?st_emit; try exact H1.
+    destruct (is_eagain e); rewrite ?st_ghost, ?st_emit; exact H1.
+  - inversion E; subst. rewrite st_ghost, st_emit. exact H1.
+Qed.
+
+Lemma sysret_bc : forall name w k w', sysret name w = (k, w') -> l_bufcap (st w') = l_bufcap (st w).
+Proof.
+  intros name w k w' E. rewrite sysret_eq in E.
+  destruct (pull w) as [[[nm0 args]|] w1] eqn:Ep; pose proof (pull_gen_bc _ _ _ _ Ep) as H1.
+  2:{ inversion E; subst; exact H1. }
+  assert (Hd : forall what, l_bufcap (st (desync what w1)) = l_bufcap (st w)) by (intros; rewrite st_desync; exact H1).
+  destruct (String.eqb nm0 "r"); [|inversion E; subst; apply Hd].
+  destruct args as [|[?|?|nm] [|[n|?|?] rest]]; try (inversion E; subst; apply Hd).
+  destruct (negb (sym_eqb nm name)); [inversion E; subst; apply Hd|].
+  destruct (n <? 0); [destruct rest as [|[?|?|?] ?]|]; inversion E; subst; exact H1.
+Qed.
+
+Lemma sys_bc : forall name args w k w', sys name args w = (k, w') -> l_bufcap (st w') = l_bufcap (st w).
+Proof. intros name args w k w' E. unfold sys in E. rewrite (sysret_bc _ _ _ _ E), st_emit. reflexivity. Qed.
+
+Lemma epctl_bc : forall op fd rw e w r w', epctl op fd rw e w = (r, w') -> l_bufcap (st w') = l_bufcap (st w).
+Proof.
+  intros op fd rw e w r w' E. unfold epctl in E. destruct (sys "epctl" _ w) as [k w1] eqn:Es.
+  pose proof (sys_bc _ _ _ _ _ Es) as H. destruct k; inversion E; subst; exact H.
+Qed.
+
+Lemma st_desync_bc : forall what w, l_bufcap (st (desync what w)) = l_bufcap (st w).
+Proof. intros. rewrite st_desync. reflexivity. Qed.
+
+Lemma efd_write_bc : forall fuel w r w', efd_write fuel w = (r, w') -> l_bufcap (st w') = l_bufcap (st w).
+Proof.
+  induction fuel as [|f IH]; intros w r w' E; cbn [efd_write] in E.
+  - inversion E; subst. apply st_desync_bc.
+  - destruct (sys "write" _ w) as [k w1] eqn:Es. pose proof (sys_bc _ _ _ _ _ Es) as H1.
+    destruct k as [? ?|e|]; try (inversion E; subst; exact H1).
+    destruct (is_eagain e); [|inversion E; subst; exact H1].
+    destruct (sys "read" _ w1) as [k2 w2] eqn:Es2. rewrite (IH _ _ _ E), (sys_bc _ _ _ _ _ Es2). exact H1.
+Qed.
+
+Lemma trigger_bc : forall b t w r w', trigger b t w = (r, w') -> l_bufcap (st w') = l_bufcap (st w).
+Proof.
+  intros b t w r w' E. unfold trigger in E.
+  assert (He : l_bufcap (enqueue (st w) b t) = l_bufcap (st w)) by (unfold enqueue; destruct (_ && _); reflexivity).
+  destruct (l_flag _); [inversion E; subst; exact He|].
+  rewrite (efd_write_bc _ _ _ _ E). exact He.
+Qed.
+
+
+Record BF (f : nat) : Prop := mkBF {
+  bf_close : forall cid e w r w', el_close f cid e w = (r, w') -> l_bufcap (st w') = l_bufcap (st w);
+  bf_drain : forall cid w, l_bufcap (st (close_drain f cid w)) = l_bufcap (st w);
+  bf_write : forall cid d w r w', conn_write f cid d w = (r, w') -> l_bufcap (st w') = l_bufcap (st w);
+  bf_wloop : forall cid d n w r w', conn_write_loop f cid d n w = (r, w') -> l_bufcap (st w') = l_bufcap (st w);
+  bf_wvloop : forall cid sg n w r w', conn_writev_loop f cid sg n w = (r, w') -> l_bufcap (st w') = l_bufcap (st w);
+  bf_writev : forall cid sg w r w', conn_writev f cid sg w = (r, w') -> l_bufcap (st w') = l_bufcap (st w);
+  bf_elwrite : forall cid sent w r w', el_write f cid sent w = (r, w') -> l_bufcap (st w') = l_bufcap (st w);
+  bf_handler : forall cid w r w', handler f cid w = (r, w') -> l_bufcap (st w') = l_bufcap (st w);
+  bf_hcall : forall cid call args w, l_bufcap (st (hcall f cid call args w)) = l_bufcap (st w)
+}.
+
+Ltac bc_step :=
+  repeat match goal with
+  | |- context [st (emit _ _)] => rewrite st_emit
+  | |- context [st (ghost _ _ _ _)] => rewrite st_ghost
+  | |- context [st (desync _ _)] => rewrite st_desync
+  | H : sys_wr _ _ _ _ _ = (_, ?w1) |- context [l_bufcap (st ?w1)] => rewrite (sys_wr_bc _ _ _ _ _ _ _ H)
+  | H : sys _ _ _ = (_, ?w1) |- context [l_bufcap (st ?w1)] => rewrite (sys_bc _ _ _ _ _ H)
+  | H : epctl _ _ _ _ _ = (_, ?w1) |- context [l_bufcap (st ?w1)] => rewrite (epctl_bc _ _ _ _ _ _ _ H)
+  | H : trigger _ _ _ = (_, ?w1) |- context [l_bufcap (st ?w1)] => rewrite (trigger_bc _ _ _ _ _ H)
+  | H : pull _ = (_, ?w1) |- context [l_bufcap (st ?w1)] => rewrite (pull_gen_bc _ _ _ _ H)
+  | |- context [l_bufcap (st (wsetc _ _ _))] => change (l_bufcap (st (wsetc ?w ?c ?x))) with (l_bufcap (st w))
+  | |- context [l_bufcap (st (with_st ?w (set_reg _ _)))] => change (l_bufcap (st (with_st w (set_reg ?s ?r)))) with (l_bufcap s)
+  end.
+
+
+Ltac bc_ih M :=
+  repeat match goal with
+  | H : el_close _ _ _ _ = (_, ?w1) |- context [l_bufcap (st ?w1)] => rewrite (bf_close _ M _ _ _ _ _ H)
+  | H : conn_write _ _ _ _ = (_, ?w1) |- context [l_bufcap (st ?w1)] => rewrite (bf_write _ M _ _ _ _ _ H)
+  | H : conn_write_loop _ _ _ _ _ = (_, ?w1) |- context [l_bufcap (st ?w1)] => rewrite (bf_wloop _ M _ _ _ _ _ _ H)
+  | H : conn_writev_loop _ _ _ _ _ = (_, ?w1) |- context [l_bufcap (st ?w1)] => rewrite (bf_wvloop _ M _ _ _ _ _ _ H)
+  | H : conn_writev _ _ _ _ = (_, ?w1) |- context [l_bufcap (st ?w1)] => rewrite (bf_writev _ M _ _ _ _ _ H)
+  | H : el_write _ _ _ _ = (_, ?w1) |- context [l_bufcap (st ?w1)] => rewrite (bf_elwrite _ M _ _ _ _ _ H)
+  | H : handler _ _ _ = (_, ?w1) |- context [l_bufcap (st ?w1)] => rewrite (bf_handler _ M _ _ _ _ H)
+  | |- context [l_bufcap (st (close_drain _ _ _))] => rewrite (bf_drain _ M)
+  | |- context [l_bufcap (st (hcall _ _ _ _ _))] => rewrite (bf_hcall _ M)
+  | _ => progress bc_step
+  end.
+
+Ltac bc_crush M := repeat (first [break_match | break_snd | progress cbn [snd]]); bc_ih M; repeat (break_match; bc_ih M); try reflexivity; try assumption; try congruence.
+
+Lemma BF_all : forall f, BF f.
+Proof.
+  induction f as [|f M].
+  - constructor; intros; cbn in *;
+      try match goal with E : (_, _) = (_, _) |- _ => inversion E; subst end; try reflexivity; apply st_desync_bc.
+  - constructor.
+    + intros cid e w r w' E. replace w' with (snd (el_close (S f) cid e w)) by (rewrite E; reflexivity).
+      clear E. cbn [el_close]. bc_crush M.
+    + intros cid w. cbn [close_drain]. bc_crush M.
+    + intros cid d w r w' E. replace w' with (snd (conn_write (S f) cid d w)) by (rewrite E; reflexivity).
+      clear E. cbn [conn_write]. bc_crush M.
+    + intros cid d n w r w' E. replace w' with (snd (conn_write_loop (S f) cid d n w)) by (rewrite E; reflexivity).
+      clear E. cbn [conn_write_loop]. bc_crush M.
+    + intros cid sg n w r w' E. replace w' with (snd (conn_writev_loop (S f) cid sg n w)) by (rewrite E; reflexivity).
+      clear E. cbn [conn_writev_loop]. bc_crush M.
+    + intros cid sg w r w' E. replace w' with (snd (conn_writev (S f) cid sg w)) by (rewrite E; reflexivity).
+      clear E. cbn [conn_writev]. bc_crush M.
+    + intros cid sent w r w' E. replace w' with (snd (el_write (S f) cid sent w)) by (rewrite E; reflexivity).
+      clear E. cbn [el_write]. bc_crush M.
+    + intros cid w r w' E. replace w' with (snd (handler (S f) cid w)) by (rewrite E; reflexivity).
+      clear E. rewrite handler_eq. bc_crush M.
+    + intros cid call args w. cbn [hcall]. bc_crush M.
+Qed.
+
+
 Section ET.
 Variable et : bool.
+Variable nd : list Z.      (* connections treated as clean although a ReadFrom is outstanding *)
 
 Definition rdx (b : rdst) (e : ev) : option rdst := if et then rd_step b e else Some b.
 
@@ -120,12 +369,13 @@ Qed.
 
 Definition pdead (p : progst) (c : Z) : bool := zmem c (p_dead p).
 Definition pdirty (p : progst) (c : Z) : bool := zmem c (p_dirty p).
+Definition clean (p : progst) (c : Z) : Prop := pdirty p c = false \/ In c nd.
 
 (* side assertions *)
 Inductive qxa :=
 | QNone
 | QOpen (c : Z)
-| QReg (c fd : Z)
+| QReg (c fd : Z) (ub : bool)
 | QLt (c : Z)
 | QRegd (c : Z)
 | QE (c fd : Z) (o : bool)   (* inside a write: c (on descriptor fd) has c_out = [], and (o) is owed *)
@@ -140,7 +390,7 @@ Definition qsem (xa : qxa) (p : progst) (s : lstate) : Prop :=
   match xa with
   | QNone => True
   | QOpen c => c_opened (getc s c) = true
-  | QReg c fd => c < l_next s /\ c_fd (getc s c) = fd /\ alookup fd (l_reg s) = None
+  | QReg c fd ub => c < l_next s /\ c_fd (getc s c) = fd /\ alookup fd (l_reg s) = None /\ c_udp (getc s c) = ub
   | QLt c => c < l_next s
   | QRegd c => c < l_next s /\ alookup (c_fd (getc s c)) (l_reg s) = Some c
   | QE c fd o => c < l_next s /\ c_out (getc s c) = [] /\ (o = true -> zmem c (p_owed p) = true) /\
@@ -162,7 +412,21 @@ Definition served (p : progst) (fd c : Z) : Prop :=
 (* W: connections inside el_close (announced closed, descriptor not yet closed);
    ops: connections that stay open until their close is announced;
    rf: the connection whose full read is being followed up *)
-Record RQ (W : list Z) (ops : list (Z * Z)) (xa : qxa) (rf : option Z) (u : unit) (x : progst * rdst) (s : lstate) : Prop := mkRQ {
+(* what is known of a connection across a call: either it stays open (on its descriptor) until its
+   close is announced, or it is a datagram identity, which is never opened *)
+Definition opsem (k : option Z) (p : progst) (s : lstate) (c : Z) : Prop :=
+  match k with
+  | Some fd => c_fd (getc s c) = fd /\ (c_opened (getc s c) = true \/ pdead p c = true)
+  | None => c_udp (getc s c) = true /\ c_opened (getc s c) = false
+  end.
+
+Lemma opsem_same : forall k p p' s s' c,
+  c_fd (getc s' c) = c_fd (getc s c) -> c_opened (getc s' c) = c_opened (getc s c) ->
+  c_udp (getc s' c) = c_udp (getc s c) -> (pdead p c = true -> pdead p' c = true) ->
+  opsem k p s c -> opsem k p' s' c.
+Proof. intros k p p' s s' c Hf Ho Hu Hd. unfold opsem. rewrite Hf, Ho, Hu. destruct k; tauto. Qed.
+
+Record RQ (W : list Z) (ops : list (Z * option Z)) (xa : qxa) (rf : option Z) (u : unit) (x : progst * rdst) (s : lstate) : Prop := mkRQ {
   q_et : l_et s = et /\ p_et (fst x) = et;
   q_last : p_last (fst x) = None;
   q_opn : forall c, c_opened (getc s c) = true -> c < l_next s;
@@ -173,12 +437,11 @@ Record RQ (W : list Z) (ops : list (Z * Z)) (xa : qxa) (rf : option Z) (u : unit
   q_regop : forall fd c, In (fd, c) (l_reg s) -> pdead (fst x) c = false ->
       c_opened (getc s c) = true \/ c_udp (getc s c) = true \/ xa = QRegd c;
   q_W : forall c, In c W -> pdead (fst x) c = true /\ alookup (c_fd (getc s c)) (l_reg s) = None /\ c < l_next s;
-  q_ops : forall c fd, In (c, fd) ops -> c < l_next s /\ c_fd (getc s c) = fd /\
-      (c_opened (getc s c) = true \/ pdead (fst x) c = true);
+  q_ops : forall c k, In (c, k) ops -> c < l_next s /\ opsem k (fst x) s c;
   q_nop : forall c, c_opened (getc s c) = false -> c_udp (getc s c) = false ->
-      pdead (fst x) c = false -> pdirty (fst x) c = false -> c_out (getc s c) = [];
+      pdead (fst x) c = false -> clean (fst x) c -> c_out (getc s c) = [];
   q_main : forall fd c, In (fd, c) (l_reg s) -> c_udp (getc s c) = false ->
-      pdead (fst x) c = false -> pdirty (fst x) c = false -> c_out (getc s c) <> [] -> ~ exempt xa c ->
+      pdead (fst x) c = false -> clean (fst x) c -> c_out (getc s c) <> [] -> ~ exempt xa c ->
       served (fst x) fd c;
   q_rd : et = true -> r_full (snd x) = None \/
       (exists c, rf = Some c /\ r_full (snd x) = Some c /\ c_opened (getc s c) = true /\ ~ In c W);
@@ -241,6 +504,7 @@ Lemma RQ_frame : forall W ops xa rf u x s s',
 Proof.
   intros W ops xa rf u x s s' [R1 R2 R3 R4 R5 R6 R7 R8 R9 R10 R11 R12 R13] Hc Hr Hn He Ht.
   constructor; intros; rewrite ?Hc, ?Hr, ?Hn, ?He in *; eauto.
+  - destruct (R9 _ _ H) as [A B]. split; [exact A|]. eapply opsem_same; [| | | |exact B]; rewrite ?Hc; auto.
   - destruct (R12 H) as [A|(c & A & B & C & D)]; [left; exact A|right; exists c; rewrite Hc; auto].
   - destruct xa; cbn [qsem] in *; rewrite ?Hc, ?Hr, ?Hn; auto.
 Qed.
@@ -279,15 +543,15 @@ Proof.
   - intros fd c0 H. destruct (R6 _ _ H) as (A & B & C). rewrite (G _ A). repeat split; auto. lia.
   - intros fd c0 H D. pose proof (proj1 (R6 _ _ H)) as Hlt. rewrite (G _ Hlt). eauto.
   - intros c0 H. destruct (R8 _ H) as (A & B & C). rewrite (G _ C). repeat split; auto. lia.
-  - intros c0 fd H. destruct (R9 _ _ H) as (A & B & C). rewrite (G _ A). repeat split; auto. lia.
+  - intros c0 k H. destruct (R9 _ _ H) as (A & B). split; [lia|]. eapply opsem_same; [| | | |exact B]; rewrite ?(G _ A); auto.
   - intros c0. destruct (Z.eq_dec c0 (l_next s)) as [->|N]; [rewrite Gn; auto|].
     rewrite getc_set_next, getc_setc. replace (c0 =? l_next s) with false by lia. auto.
   - intros fd c0 H. pose proof (proj1 (R6 _ _ H)) as Hlt. rewrite (G _ Hlt). eauto.
   - intros E. destruct (R12 E) as [A|(c0 & A & B & C & D)]; [left; exact A|].
     right. exists c0. rewrite (G _ (R3 _ C)). auto.
-  - destruct xa as [|c0|c0 fd|c0|c0|c0 fd o|c0|c0 fd|fd|c0 fd|c0 fd|]; cbn [qsem] in *; cbn [set_next setc l_next l_reg]; auto.
+  - destruct xa as [|c0|c0 fd ub|c0|c0|c0 fd o|c0|c0 fd|fd|c0 fd|c0 fd|]; cbn [qsem] in *; cbn [set_next setc l_next l_reg]; auto.
     + rewrite (G _ (R3 _ R13)). exact R13.
-    + destruct R13 as (A & B & C). rewrite (G _ A). repeat split; auto. lia.
+    + destruct R13 as (A & B & C & D). rewrite (G _ A). repeat split; auto. lia.
     + lia.
     + destruct R13 as (A & B). rewrite (G _ A). split; [lia|exact B].
     + destruct R13 as (A & B & C & D & E). rewrite (G _ A). repeat split; auto. lia.
@@ -312,6 +576,7 @@ Proof.
       constructor; intros; rewrite ?getc_enqueue, ?l_reg_enqueue, ?l_next_enqueue in *; eauto.
       * unfold enqueue. destruct (_ && _); exact R1.
       * apply tasks_enqueue in H. destruct H as [H|H]; [inversion H; subst; subst s1; cbn [set_next l_next]; lia|eauto].
+      * destruct (R9 _ _ H) as [A B]. split; [exact A|]. eapply opsem_same; [| | | |exact B]; rewrite ?getc_enqueue; auto.
       * destruct (R12 H) as [A|(c0 & A & B & C & D)]; [left; exact A|right; exists c0; rewrite getc_enqueue; auto].
       * destruct xa; cbn [qsem] in *; rewrite ?getc_enqueue, ?l_reg_enqueue, ?l_next_enqueue; auto.
 Qed.
@@ -380,9 +645,9 @@ Lemma RQ_prog : forall W ops xa xa' rf u p p' b s,
   (forall fd c, In (fd, c) (l_reg s) -> pdead p' c = false ->
      c_opened (getc s c) = true \/ c_udp (getc s c) = true \/ xa' = QRegd c) ->
   (forall c, c_opened (getc s c) = false -> c_udp (getc s c) = false ->
-     pdead p' c = false -> pdirty p' c = false -> c_out (getc s c) = []) ->
+     pdead p' c = false -> clean p' c -> c_out (getc s c) = []) ->
   (forall fd c, In (fd, c) (l_reg s) -> c_udp (getc s c) = false ->
-     pdead p' c = false -> pdirty p' c = false -> c_out (getc s c) <> [] -> ~ exempt xa' c -> served p' fd c) ->
+     pdead p' c = false -> clean p' c -> c_out (getc s c) <> [] -> ~ exempt xa' c -> served p' fd c) ->
   qsem xa' p' s ->
   RQ W ops xa' rf u (p', b) s.
 Proof.
@@ -390,15 +655,15 @@ Proof.
   cbn [fst snd] in *. constructor; cbn [fst snd]; auto.
   - destruct R1. split; congruence.
   - intros c H. destruct (R8 _ H) as (A & B & C). auto.
-  - intros c fd H. destruct (R9 _ _ H) as (A & B & [C|C]); auto.
+  - intros c k H. destruct (R9 _ _ H) as (A & B). split; [exact A|]. eapply opsem_same; [| | | |exact B]; auto.
 Qed.
 
 (* one connection changes: descriptor, opened and datagram flags do not *)
 Lemma RQ_setc : forall W ops xa rf u p b s c c',
   RQ W ops xa rf u (p, b) s ->
   c_fd c' = c_fd (getc s c) -> c_opened c' = c_opened (getc s c) -> c_udp c' = c_udp (getc s c) ->
-  (c_opened c' = false -> c_udp c' = false -> pdead p c = false -> pdirty p c = false -> c_out c' = []) ->
-  (forall fd, In (fd, c) (l_reg s) -> c_udp c' = false -> pdead p c = false -> pdirty p c = false ->
+  (c_opened c' = false -> c_udp c' = false -> pdead p c = false -> clean p c -> c_out c' = []) ->
+  (forall fd, In (fd, c) (l_reg s) -> c_udp c' = false -> pdead p c = false -> clean p c ->
      c_out c' <> [] -> ~ exempt xa c -> served p fd c) ->
   (forall fd o, xa = QE c fd o -> c_out c' = []) ->
   (forall fd, xa = QEf c fd -> c_out c' = []) ->
@@ -414,14 +679,14 @@ Proof.
   - intros fd c0 H D. rewrite getc_setc. destruct (Z.eqb_spec c0 c) as [->|N]; [|eauto]. rewrite Ho, Hu. eauto.
   - intros c0 H. rewrite getc_setc. destruct (R8 _ H) as (A & B & C).
     destruct (Z.eqb_spec c0 c) as [->|N]; [|auto]. rewrite Hf. auto.
-  - intros c0 fd H. destruct (R9 _ _ H) as (A & B & C). rewrite getc_setc.
-    destruct (Z.eqb_spec c0 c) as [->|N]; [rewrite Hf, Ho|]; auto.
+  - intros c0 k H. destruct (R9 _ _ H) as (A & B). split; [exact A|].
+    eapply opsem_same; [| | | |exact B]; auto; rewrite getc_setc; destruct (Z.eqb_spec c0 c) as [->|N]; auto.
   - intros c0. rewrite getc_setc. destruct (Z.eqb_spec c0 c) as [->|N]; [|auto]. auto.
   - intros fd c0 H. rewrite getc_setc. destruct (Z.eqb_spec c0 c) as [->|N]; [|eauto]. intros. apply (Hm fd); auto.
   - intros E. destruct (R12 E) as [A|(c0 & A & B & C & D)]; [left; exact A|right].
     exists c0. rewrite getc_setc. destruct (Z.eqb_spec c0 c) as [->|N]; [rewrite Ho|]; auto.
-  - destruct xa as [|c0|c0 fd|c0|c0|c0 fd o|c0|c0 fd|fd|c0 fd|c0 fd|]; cbn [qsem] in *; cbn [setc l_next l_reg]; rewrite ?getc_setc; auto;
-      destruct (Z.eqb_spec c0 c) as [->|N]; rewrite ?Ho, ?Hf; auto.
+  - destruct xa as [|c0|c0 fd ub|c0|c0|c0 fd o|c0|c0 fd|fd|c0 fd|c0 fd|]; cbn [qsem] in *; cbn [setc l_next l_reg]; rewrite ?getc_setc; auto;
+      destruct (Z.eqb_spec c0 c) as [->|N]; rewrite ?Ho, ?Hf, ?Hu; auto.
     + destruct R13 as (A & B & C & D & E). repeat split; eauto.
     + destruct R13 as (A & B & C & D). repeat split; eauto.
 Qed.
@@ -459,7 +724,7 @@ Proof.
   - intros c0 A B D E. apply (q_nop _ _ _ _ _ _ _ HR c0 A B); [apply Hd'; exact D|exact E].
   - intros fd c0 H A D E F G. apply (q_main _ _ _ _ _ _ _ HR fd c0 H A); auto.
   - pose proof (q_x _ _ _ _ _ _ _ HR) as X. cbn [fst] in X.
-    destruct xa as [|c0|c0 fd|c0|c0|c0 fd o|c0|c0 fd|fd|c0 fd|c0 fd|]; cbn [qsem] in *; auto.
+    destruct xa as [|c0|c0 fd ub|c0|c0|c0 fd o|c0|c0 fd|fd|c0 fd|c0 fd|]; cbn [qsem] in *; auto.
     + destruct X as (A & B & C & D & [E|E]); repeat split; auto. right. apply (Hd c0). exact E.
     + destruct X as (A & B & [E|E]); repeat split; auto. right. apply (Hd c0). exact E.
 Qed.
@@ -507,7 +772,7 @@ Proof.
   - intros fd c0 H A D E F G. apply served_owed_add. apply (q_main _ _ _ _ _ _ _ HR fd c0 H A D E F).
     intro Ex. apply G. apply exempt_owed. exact Ex.
   - pose proof (q_x _ _ _ _ _ _ _ HR) as X. cbn [fst] in X.
-    destruct xa as [|c0|c0 fd|c0|c0|c0 fd o|c0|c0 fd|fd|c0 fd|c0 fd|]; cbn [qsem xa_owed] in *; auto.
+    destruct xa as [|c0|c0 fd ub|c0|c0|c0 fd o|c0|c0 fd|fd|c0 fd|c0 fd|]; cbn [qsem xa_owed] in *; auto.
     destruct (Z.eqb_spec c0 c) as [->|N]; cbn [qsem set_owed p_owed p_dead].
     + destruct X as (A & B & C & D). repeat split; auto; try tauto. intros _. rewrite zmem_cons, Z.eqb_refl. reflexivity.
     + destruct X as (A & B & C & D). repeat split; auto; try tauto. intros Eo. rewrite zmem_cons, (C Eo). apply orb_true_r.
@@ -538,7 +803,7 @@ Proof.
     rewrite zmem_zrem. destruct (Z.eqb_spec c0 c) as [->|N]; [|exact M].
     exfalso. destruct (Hex eq_refl) as [Ex|(fd0 & o & Ex)]; [tauto|].
     subst xa. cbn [qsem] in X. destruct X as (_ & B & _). congruence.
-  - destruct xa as [|c0|c0 fd|c0|c0|c0 fd o|c0|c0 fd|fd|c0 fd|c0 fd|]; cbn [qsem xa_hand] in *; auto.
+  - destruct xa as [|c0|c0 fd ub|c0|c0|c0 fd o|c0|c0 fd|fd|c0 fd|c0 fd|]; cbn [qsem xa_hand] in *; auto.
     destruct (Z.eqb_spec c0 c) as [->|N]; cbn [qsem set_owed p_owed p_dead].
     + destruct X as (A & B & C & D). repeat split; auto; try tauto. discriminate.
     + destruct X as (A & B & C & D). repeat split; auto; try tauto.
@@ -559,7 +824,7 @@ Qed.
 
 Lemma RQ_unexempt : forall W ops xa rf u p b s c,
   RQ W ops xa rf u (p, b) s -> (forall c0, exempt xa c0 -> c0 = c) -> (forall c0, xa <> QRegd c0) ->
-  (forall fd, In (fd, c) (l_reg s) -> c_udp (getc s c) = false -> pdead p c = false -> pdirty p c = false ->
+  (forall fd, In (fd, c) (l_reg s) -> c_udp (getc s c) = false -> pdead p c = false -> clean p c ->
      c_out (getc s c) <> [] -> served p fd c) ->
   RQ W ops QNone rf u (p, b) s.
 Proof.
@@ -573,7 +838,7 @@ Qed.
 
 Lemma Q_unexempt : forall W ops xa rf w c, (forall c0, exempt xa c0 -> c0 = c) -> (forall c0, xa <> QRegd c0) ->
   (forall u p b, RQ W ops xa rf u (p, b) (st w) ->
-     forall fd, In (fd, c) (l_reg (st w)) -> c_udp (wc w c) = false -> pdead p c = false -> pdirty p c = false ->
+     forall fd, In (fd, c) (l_reg (st w)) -> c_udp (wc w c) = false -> pdead p c = false -> clean p c ->
      c_out (wc w c) <> [] -> served p fd c) ->
   QINV (RQ W ops xa rf) w -> QINV (RQ W ops QNone rf) w.
 Proof.
@@ -676,7 +941,7 @@ Definition with_want (p : progst) (ww : list (Z * bool)) : progst :=
   mkP (p_et p) ww None (p_owed p) (p_dirty p) (p_dead p).
 
 (* the relation while the result is awaited *)
-Definition RQl (W : list Z) (ops : list (Z * Z)) (xa : qxa) (rf : option Z) (v : Z * Z * bool) (u : unit) (x : progst * rdst) (s : lstate) : Prop :=
+Definition RQl (W : list Z) (ops : list (Z * option Z)) (xa : qxa) (rf : option Z) (v : Z * Z * bool) (u : unit) (x : progst * rdst) (s : lstate) : Prop :=
   exists p0, RQ W ops xa rf u (p0, snd x) s /\ fst x = with_last p0 (Some v).
 
 Lemma prog_step_in_notr : forall p name args, name <> "r" -> prog_step p (EIn (name, args)) = Some p.
@@ -766,7 +1031,7 @@ Qed.
 Lemma RQ_want : forall W ops xa rf u p0 b s ww,
   RQ W ops xa rf u (p0, b) s ->
   (et = false -> forall fd c, In (fd, c) (l_reg s) -> c_udp (getc s c) = false -> pdead p0 c = false ->
-     pdirty p0 c = false -> c_out (getc s c) <> [] -> ~ exempt xa c ->
+     clean p0 c -> c_out (getc s c) <> [] -> ~ exempt xa c ->
      getd false fd (p_want_w p0) = true -> getd false fd ww = true) ->
   RQ W ops xa rf u (with_want p0 ww, b) s.
 Proof.
@@ -883,49 +1148,6 @@ Lemma qstep_hr : forall p b cid call vals p',
   qstep (p, b) (EOut ("hr", AInt cid :: ASym call :: vals)) = Some (p', b).
 Proof.
   intros p b cid call vals p' E. unfold qstep, rdx. cbn [fst snd]. rewrite E. destruct et; reflexivity.
-Qed.
-
-Lemma Q_hr_readfrom : forall W ops rf cid vals w c',
-  c_fd c' = c_fd (wc w cid) -> c_opened c' = c_opened (wc w cid) -> c_udp c' = c_udp (wc w cid) ->
-  QINV (RQ W ops QNone rf) w ->
-  QINV (RQ W ops QNone rf) (emit (obs "hr" (AInt cid :: ASym "readfrom" :: vals)) (wsetc w cid c')).
-Proof.
-  intros W ops rf cid vals w c' Hf Ho Hu HI. eapply Inv_wsetc_emit; [exact HI|reflexivity|].
-  intros [] [p b] _ HR. cbn [ustep]. eexists. split; [apply qstep_hr; reflexivity|]. unfold wc in *.
-  set (p' := mkP (p_et p) (p_want_w p) (p_last p) (p_owed p) (cid :: p_dirty p) (p_dead p)).
-  assert (Hd : pdirty p' cid = true) by (unfold pdirty, p'; cbn [p_dirty]; rewrite zmem_cons, Z.eqb_refl; reflexivity).
-  assert (Hd' : forall c0, pdirty p' c0 = false -> pdirty p c0 = false).
-  { intros c0 H. unfold pdirty, p' in *. cbn [p_dirty] in H. rewrite zmem_cons in H. apply orb_false_elim in H. tauto. }
-  assert (HR' : RQ W ops QNone rf tt (p', b) (st w)).
-  { eapply RQ_prog; [exact HR|reflexivity|exact (q_last _ _ _ _ _ _ _ HR)|auto| | | |exact I].
-    - exact (q_regop _ _ _ _ _ _ _ HR).
-    - intros c0 A B D E. apply (q_nop _ _ _ _ _ _ _ HR c0 A B D). apply Hd'. exact E.
-    - intros fd c0 H A D E F G. apply (q_main _ _ _ _ _ _ _ HR fd c0 H A D); auto. }
-  apply RQ_setc; auto; try congruence; try discriminate.
-Qed.
-
-Lemma Q_hr_flush_nil : forall W ops rf cid w,
-  (forall u p b, RQ W ops QNone rf u (p, b) (st w) ->
-     (c_opened (wc w cid) = false -> c_udp (wc w cid) = false -> pdead p cid = false -> c_out (wc w cid) = []) /\
-     (forall fd, In (fd, cid) (l_reg (st w)) -> c_udp (wc w cid) = false -> pdead p cid = false ->
-        c_out (wc w cid) <> [] -> served p fd cid)) ->
-  QINV (RQ W ops QNone rf) w ->
-  QINV (RQ W ops QNone rf) (emit (obs "hr" [AInt cid; ASym "flush"; ASym "nil"]) w).
-Proof.
-  intros W ops rf cid w Hc HI. eapply Inv_emit; [exact HI|reflexivity|].
-  intros [] [p b] _ HR. cbn [ustep]. eexists. split; [apply qstep_hr; reflexivity|].
-  destruct (Hc _ _ _ HR) as [C1 C2]. unfold wc in *.
-  set (p' := mkP (p_et p) (p_want_w p) (p_last p) (p_owed p) (zrem cid (p_dirty p)) (p_dead p)).
-  assert (Hd : forall c0, c0 <> cid -> pdirty p' c0 = pdirty p c0).
-  { intros c0 N. unfold pdirty, p'. cbn [p_dirty]. rewrite zmem_zrem. replace (c0 =? cid) with false by lia. reflexivity. }
-  eapply RQ_prog; [exact HR|reflexivity|exact (q_last _ _ _ _ _ _ _ HR)|auto| | | |exact I].
-  - exact (q_regop _ _ _ _ _ _ _ HR).
-  - intros c0 A B D E. destruct (Z.eq_dec c0 cid) as [->|N]; [apply C1; auto|].
-    apply (q_nop _ _ _ _ _ _ _ HR c0 A B D). cbn [fst]. rewrite <- (Hd _ N). exact E.
-  - intros fd c0 H A D E F G. destruct (Z.eq_dec c0 cid) as [->|N].
-    + unfold served in *. cbn [p_owed p_want_w]. apply C2; auto.
-    + assert (M : served p fd c0) by (apply (q_main _ _ _ _ _ _ _ HR fd c0 H A D); auto; cbn [fst]; rewrite <- (Hd _ N); exact E).
-      exact M.
 Qed.
 
 End ET.
